@@ -609,6 +609,7 @@ class AffInterp:
         self.depth = 0
         self.inline_jacobian = False
         self.effects = None      # when a dict: {'written': set, 'carried': [(attr, where)]}
+        self._mod_const_busy = set()
 
     # ------------------------------------------------------------------ construction
     def construct(self):
@@ -811,6 +812,9 @@ class AffInterp:
                 raise AnalysisError("%s:%d packed store of a non-array" % (func.qualname, node.lineno))
         elif isinstance(o, dict):
             o[idx] = v
+        elif isinstance(o, tuple) and len(o) == 3 and o[0] == "jacview" and isinstance(o[1], tuple) and len(o[1]) == 2 and o[1][0] == slice(None, None, None) and isinstance(idx, slice):
+            # column = J[:, c] (a view) ; column[rows] = v   ==   J[rows, c] = v
+            self.setitem(o[2], (idx, o[1][1]), v, func, node)
         elif isinstance(o, AArr) and isinstance(idx, Idx) and isinstance(v, Elem) and v.arr is o and v.pert is not None:
             key = ("PERT", repr(idx), v.pert.comp, str(v.pert.rel), v.pert.per_cell, v.pert.absval)
             o.form[key] = _padd(o.form.get(key, {}), {0: Fraction(1)})
@@ -907,6 +911,18 @@ class AffInterp:
         if node.id in mod.imports or node.id in mod.from_imports:
             return Opaque(node.id)
         if node.id in mod.assigns:
+            # module-level constant: its defining expression, when this evaluator can fold it
+            expr = mod.assigns[node.id]
+            if isinstance(expr, ast.expr) and node.id not in self._mod_const_busy:
+                self._mod_const_busy.add(node.id)
+                try:
+                    v = self.eval(expr, {}, func)
+                    if isinstance(v, (int, Fraction, S, EpsVal)):
+                        return v
+                except AnalysisError:
+                    pass
+                finally:
+                    self._mod_const_busy.discard(node.id)
             return Opaque(node.id)
         raise AnalysisError("%s:%d unknown name %s" % (func.qualname, node.lineno, node.id))
 
@@ -994,7 +1010,7 @@ class AffInterp:
             if idx[0] is None and isinstance(idx[1], slice):
                 return o.as_vec("row")
         if isinstance(o, JacMat):
-            return ("jacview", idx)
+            return ("jacview", idx, o)
         if isinstance(o, AArr) and isinstance(idx, Idx):
             return Elem(o, idx)
         if isinstance(o, AArr) and isinstance(idx, slice) and any(isinstance(x, (Idx, IdxClamp)) for x in (idx.start, idx.stop)):
